@@ -197,6 +197,7 @@ def h05_job(S):
     now = S.int("consume_at_us", Y2000, Y2050)
     S.assume(T > e)
     S.assume(now >= e)
+    inspected = S.flag("inspected_through_the_delayed_category_and_handed_back")
     clock = PinnedClock(e)
     out = {}
 
@@ -205,6 +206,14 @@ def h05_job(S):
         await w.open(record=False)
         await Job("job", id_="d1", deferred_until=S.datetime_us(T), deferred_by=S.timedelta_us(p) if has_by else None,
                   _connection=w.conn).enqueue()
+        if inspected:
+            # somebody looks at the delayed category (Queue.get_messages(category=DELAYED)) and hands the message back
+            from repid.message import MessageCategory
+            dc = w.broker.get_consumer("default", ["job"], None, MessageCategory.DELAYED)
+            await dc.start()
+            seen = await try_consume(dc)
+            if seen is not None:
+                await w.broker.reject(seen[0])
         clock.set(now)
         cons = w.broker.get_consumer("default", ["job"])
         await cons.start()
@@ -272,5 +281,14 @@ HARNESSES = [
         covers=["published-delayed"],
     ),
 ]
+from harness.c04 import h04_step  # noqa: E402
+
+HARNESSES.append(
+    Harness(name="H05-retry-step", scenario=h04_step, workers=8,
+            bounds={"as H04-step": "one failed attempt from an arbitrary retry state (any back-off incl. zero, recurring or not): the retry is due exactly "
+                                   "at failure + back-off, is held back only until then and delivered from then on"},
+            functions=["data/_parameters.py:Parameters._prepare_retry", "connections/in_memory/utils.py:wait_until"],
+            covers=["retry", "retry-delivered", "retry-held-back"],
+            stubs=["state constructed directly (see H04-step)"]))
 ASSUMPTIONS = ["'at millisecond resolution' is read as a 1 ms tolerance on 'not before T'",
                "Redis/RabbitMQ servers are stubs (fakes/redis.py, fakes/amqp.py)"]
